@@ -71,7 +71,7 @@ comp = Component("generated-profile-is-valid-and-faithful",
                  "quote, backslash, newline, NUL, high bytes; header / parameter / print / uri-append terminations; static headers and "
                  "parameters), text values over printable characters except backslash, optional process-inject / stage / DNS / BeaconGate "
                  "settings in random subsets; the generated text parses, and the dictionary of the parsed text states the configured "
-                 "values; empty blocks are omitted; 120 configurations quick / 4000 thorough")
+                 "values; empty blocks are omitted; 120 configurations quick / 1500 thorough")
 c_k5 = Component("text-options-with-backslash", "user agent `agent\\` (ends in a backslash) and a spawn-to path with backslashes")
 
 
@@ -200,7 +200,7 @@ def check(blk, desc, want, comp_, key, klass=None):
     comp_.case(key, ok, sample=repr(desc["get"])[:80], witness=witness)
 
 
-for i in range(120 if TIER == "quick" else 4000):
+for i in range(120 if TIER == "quick" else 1500):
     blk, desc, want = build_config()
     check(blk, desc, want, comp, i)
 
